@@ -309,6 +309,93 @@ theorem builder_header_passes (now : Int) (rules : Int → Rules) (parent : Bloc
     intro ⟨h0, hlt⟩; exact hempty ⟨h0, by omega⟩
   simp only [h1, h2, if_false]
 
+
+/-- **C11 (builder emits only extending blocks)** — for *every* mempool content, whatever the
+builder drops on the way: if `BuildBlock` hands out a block, that block satisfies the four
+header conditions w.r.t. the parent *header*: height + 1, timestamp = the builder's clock
+(so within any verifier's future bound that is not behind by more than `FutureBound`),
+timestamp ≥ parent timestamp + `MinBlockGap`, and — keyed on the transactions that actually
+made it in, not on the mempool — ≥ parent timestamp + `MinEmptyBlockGap` when the block is
+empty; its `StateRoot` is the parent view's root. -/
+theorem builder_emits_only_extending_blocks (now : Int) (rules : Int → Rules) (parent : Block)
+    (parentRoot : Nat) (mempool : List MTx) (b : Block)
+    (hb : buildBlock now rules parent parentRoot mempool = .ok b)
+    (hg : InI64 (parent.ts + (rules now).minBlockGap))
+    (he : InI64 (parent.ts + (rules now).minEmptyBlockGap)) :
+    b.height = (parent.height + 1) % 18446744073709551616 ∧
+    b.ts = now ∧
+    parent.ts + (rules now).minBlockGap ≤ b.ts ∧
+    b.numTxs = (mempool.filter (· = .included)).length ∧
+    (b.numTxs = 0 → parent.ts + (rules now).minEmptyBlockGap ≤ b.ts) ∧
+    b.stateRoot = parentRoot := by
+  unfold buildBlock at hb
+  simp only [] at hb
+  split at hb
+  · cases hb
+  rename_i h t hhdr
+  injection hb with hb
+  subst hb
+  unfold buildHeader at hhdr
+  simp only [] at hhdr
+  split at hhdr
+  · cases hhdr
+  rename_i hearly
+  split at hhdr
+  · cases hhdr
+  rename_i hempty
+  injection hhdr with hhdr
+  injection hhdr with hh ht
+  subst hh; subst ht
+  unfold addI64 at hearly hempty
+  rw [wrapI64_id _ hg] at hearly
+  rw [wrapI64_id _ he] at hempty
+  refine ⟨rfl, rfl, by simp only []; omega, rfl, ?_, rfl⟩
+  intro h0
+  simp only [] at h0 ⊢
+  have : ¬ now < parent.ts + (rules now).minEmptyBlockGap := fun hlt => hempty ⟨h0, hlt⟩
+  omega
+
+/-- the empty-after-drops path: a non-empty mempool all of whose transactions are dropped
+yields either no block or an empty block at least `MinEmptyBlockGap` after its parent. -/
+theorem builder_all_dropped_respects_empty_gap (now : Int) (rules : Int → Rules) (parent : Block)
+    (parentRoot : Nat) (mempool : List MTx) (b : Block)
+    (hall : ∀ t ∈ mempool, t = .dropped)
+    (hb : buildBlock now rules parent parentRoot mempool = .ok b)
+    (hg : InI64 (parent.ts + (rules now).minBlockGap))
+    (he : InI64 (parent.ts + (rules now).minEmptyBlockGap)) :
+    b.numTxs = 0 ∧ parent.ts + (rules now).minEmptyBlockGap ≤ b.ts := by
+  obtain ⟨_, _, _, hn, hemp, _⟩ :=
+    builder_emits_only_extending_blocks now rules parent parentRoot mempool b hb hg he
+  have h0 : b.numTxs = 0 := by
+    rw [hn, List.length_eq_zero_iff, List.filter_eq_nil_iff]
+    intro t ht
+    rw [hall t ht]
+    decide
+  exact ⟨h0, hemp h0⟩
+
+/-- and every block the builder hands out passes the verifier's height/timestamp checks on a
+parent whose state timestamp does not exceed its header timestamp (see
+`builder_header_passes`), for every mempool. -/
+theorem built_block_passes_block_context (now : Int) (rules : Int → Rules) (parent : Block)
+    (parentRoot : Nat) (mempool : List MTx) (b : Block) (p : View) (pts : Int)
+    (hb : buildBlock now rules parent parentRoot mempool = .ok b)
+    (hwf : parent.WF) (hpts : InI64 pts) (hle : pts ≤ parent.ts)
+    (hH : p.heightRaw = some (be64 parent.height)) (hT : p.tsRaw = some (be64 (toU64 pts)))
+    (hF : p.feeRaw.isSome = true)
+    (hg1 : InI64 (parent.ts + (rules now).minBlockGap)) (hg2 : InI64 (pts + (rules now).minBlockGap))
+    (he1 : InI64 (parent.ts + (rules now).minEmptyBlockGap))
+    (he2 : InI64 (pts + (rules now).minEmptyBlockGap)) :
+    createBlockContext (rules b.ts) p b = .ok () := by
+  unfold buildBlock at hb
+  simp only [] at hb
+  split at hb
+  · cases hb
+  rename_i h t hhdr
+  injection hb with hb
+  subst hb
+  exact builder_header_passes now rules parent _ p h t parentRoot pts hhdr hwf hpts hle hH hT hF
+    hg1 hg2 he1 he2
+
 /-! ### non-vacuity -/
 
 /-- a two-block verified chain from the genesis view exists (so the chain theorems are not
@@ -322,5 +409,9 @@ example : execute witnessEnv (genesisView [] 0) ⟨1, 1700000001001, 0, 0⟩ = .
 example : execute witnessEnv (genesisView [] 0) ⟨2, 750, 0, 0⟩ = .error .height := rfl
 example : execute witnessEnv (genesisView [] 0) ⟨1, 750, 0, 5⟩ = .error .root := rfl
 example : buildHeader 1700000000000 defaultRules (genesisBlock 0) 0 = .ok (1, 1700000000000) := rfl
+example : buildBlock 1000300 defaultRules ⟨1, 1000000, 0, 0⟩ 5 [.dropped] = .error .noTxs := rfl
+example : buildBlock 1000300 defaultRules ⟨1, 1000000, 0, 0⟩ 5 [.dropped, .included]
+    = .ok ⟨2, 1000300, 1, 5⟩ := rfl
+example : buildBlock 1000800 defaultRules ⟨1, 1000000, 0, 0⟩ 5 [.dropped] = .ok ⟨2, 1000800, 0, 5⟩ := rfl
 
 end HyperModel.Props.C11
